@@ -160,6 +160,7 @@ static void pool_free(void) {
 static int op_reset(int argc, tok_t *a, out_t *o) {
   (void) argc; (void) a; (void) o;
   pool_free();
+  mpf_set_default_prec(64);
   base_blocks = h_live_blocks; calls_since_reset = 0;
   for (int p = 0; p < 2; p++) {
     for (int i = 0; i < NZ; i++) mpz_init(pool[p].z[i]);
@@ -277,6 +278,56 @@ static int op_call(int argc, tok_t *a, out_t *o) {
   if (!o->len) out_long(o, 0);
   return 0;
 }
+/* @limbs k mode n [limbs] size : limb-level access.  mode 0 = mpz_limbs_write (n limbs), 1 = mpz_limbs_modify; the limbs are
+   stored, then mpz_limbs_finish (z, size) with |size| <= n (high limbs may be zero: finish must normalise) */
+static int op_limbs(int argc, tok_t *a, out_t *o) {
+  if (argc != 5 || !pool[0].live) return -1;
+  int k = tok_long(&a[0]); long mode = tok_long(&a[1]), n = tok_long(&a[2]), size = tok_long(&a[4]);
+  long as = size < 0 ? -size : size;
+  if (k < 0 || k >= NZ || n < 1 || n > 4000 || a[3].n != n || as > n) return -1;
+  for (int p = 0; p < 2; p++) {
+    mp_ptr lp = mode ? mpz_limbs_modify(pool[p].z[k], n) : mpz_limbs_write(pool[p].z[k], n);
+    for (long i = 0; i < n; i++) lp[i] = a[3].d[i];
+    mpz_limbs_finish(pool[p].z[k], size);
+  }
+  calls_since_reset++;
+  if (!mpz_wf(pool[0].z[k]) || !mpz_wf(pool[1].z[k])) { out_err(o, "malformed"); return 0; }
+  out_mpz(o, pool[1].z[k]);
+  /* read back through the read-only accessors */
+  { mpz_srcptr z = pool[1].z[k]; long zs = mpz_size(z); mp_srcptr rp = mpz_limbs_read(z);
+    for (long i = 0; i < zs; i++) if (rp[i] != z->_mp_d[i]) out_err(o, "limbs_read"); }
+  return 0;
+}
+/* @init_set kind dst src|value : clear dst, then mpz_init_set (kind 0, src slot), mpz_init_set_ui (1), mpz_init_set_si (2),
+   mpf_init_set (3, src slot; uses the CURRENT default precision), mpf_init_set_ui (4), mpf_init_set_si (5) */
+static int op_init_set(int argc, tok_t *a, out_t *o) {
+  if (argc != 3 || !pool[0].live) return -1;
+  long kind = tok_long(&a[0]); int d = tok_long(&a[1]); long s = tok_long(&a[2]);
+  if (kind < 0 || kind > 5) return -1;
+  if (kind <= 2 ? (d < 0 || d >= NZ) : (d < 0 || d >= NF)) return -1;
+  if ((kind == 0 && (s < 0 || s >= NZ || s == d)) || (kind == 3 && (s < 0 || s >= NF || s == d))) return -1;
+  for (int p = 0; p < 2; p++) {
+    if (kind <= 2) mpz_clear(pool[p].z[d]); else mpf_clear(pool[p].f[d]);
+    switch (kind) {
+    case 0: mpz_init_set(pool[p].z[d], pool[p].z[s]); break;
+    case 1: mpz_init_set_ui(pool[p].z[d], tok_ulong(&a[2])); break;
+    case 2: mpz_init_set_si(pool[p].z[d], tok_long(&a[2])); break;
+    case 3: mpf_init_set(pool[p].f[d], pool[p].f[s]); break;
+    case 4: mpf_init_set_ui(pool[p].f[d], tok_ulong(&a[2])); break;
+    case 5: mpf_init_set_si(pool[p].f[d], tok_long(&a[2])); break;
+    }
+  }
+  calls_since_reset++;
+  if (kind <= 2) { if (!mpz_wf(pool[0].z[d]) || !mpz_wf(pool[1].z[d]) || !same_z(pool[0].z[d], pool[1].z[d])) out_err(o, "malformed"); }
+  else { if (!mpf_wf(pool[0].f[d]) || !mpf_wf(pool[1].f[d]) || !same_f(pool[0].f[d], pool[1].f[d])) out_err(o, "malformed-f"); }
+  if (!o->len) out_long(o, 0);
+  return 0;
+}
+/* @defprec bits : mpf_set_default_prec (documented shared state; restored by @reset) */
+static int op_defprec(int argc, tok_t *a, out_t *o) {
+  if (argc != 1) return -1;
+  mpf_set_default_prec(tok_ulong(&a[0])); out_long(o, 0); return 0;
+}
 /* @getz k -> value (so that the model can follow values of the lifecycle ops) */
 static int op_getz(int argc, tok_t *a, out_t *o) {
   if (argc != 1 || !pool[0].live) return -1; int k = tok_long(&a[0]); if (k < 0 || k >= NZ) return -1;
@@ -286,6 +337,6 @@ static int op_getz(int argc, tok_t *a, out_t *o) {
 const opdef_t ops_api[] = {
   {"api_alias", op_api_alias}, {"api_alias2", op_api_alias2}, {"api_count", op_api_count},
   {"@reset", op_reset}, {"@done", op_done}, {"@setz", op_setz}, {"@setq", op_setq}, {"@setf", op_setf},
-  {"@init2", op_init2}, {"@realloc2", op_realloc2}, {"@seed", op_seed}, {"@call", op_call}, {"@getz", op_getz},
+  {"@init2", op_init2}, {"@realloc2", op_realloc2}, {"@seed", op_seed}, {"@call", op_call}, {"@getz", op_getz}, {"@limbs", op_limbs}, {"@init_set", op_init_set}, {"@defprec", op_defprec},
   {0, 0}
 };
